@@ -56,6 +56,9 @@ type Timer struct {
 	armed  bool
 	ticker bool
 	Fired  int
+	// Tag lets the creator say what the timer is for ("context": the deadline of a vctx context), so that a
+	// harness's timing model can tell timers of equal duration apart
+	Tag string
 }
 
 // SetBackend installs (or removes, with nil) the scheduler backend and resets
